@@ -221,21 +221,7 @@ def run(prog, rep):
             raise AnalysisBroken('anchor vanished: policy mapper %s (with a try block)' % q)
         f = sorted(fs, key=lambda x: x.id)[0]
         rep.touch(f)
-        hs = handlers_of(f)
-        problems = []
-        oor = hs.get('std::out_of_range')
-        if oor is None:
-            problems.append('no handler for std::out_of_range: a range error is reported through the catch-all (wrong policy / wrong error code)')
-        elif 'overflowNumberPolicy' not in oor['names']:
-            problems.append('the std::out_of_range handler does not consult overflowNumberPolicy')
-        mm = hs.get('std::invalid_argument') or hs.get(None)
-        if mm is None:
-            problems.append('no handler that maps conversion failures to the mismatched-types policy')
-        elif 'mismatchedTypesPolicy' not in mm['names']:
-            if hs.get('std::invalid_argument') is not None:
-                problems.append('the std::invalid_argument handler does not consult mismatchedTypesPolicy')
-            elif not (hs.get('std::invalid_argument') is None and hs.get(None) is not None and 'mismatchedTypesPolicy' in hs[None]['names']):
-                problems.append('the catch-all handler does not consult mismatchedTypesPolicy')
+        problems, hs = mapper_problems(prog, f)
         site = q
         if problems:
             for p in problems:
@@ -306,34 +292,7 @@ def check_convert_by_policy(f):
     hs = {}
     for h in children_with_role(t, 'handler'):
         hs[h.get('ctq', h.get('ct'))] = h
-    want = {'std::invalid_argument': 'mismatchedTypesPolicy', 'std::out_of_range': 'overflowNumberPolicy'}
-    for ty, pol in want.items():
-        h = hs.get(ty)
-        if h is None:
-            problems.append('handlers: no catch(const %s&)' % ty)
-            continue
-        guarded_throw = False
-        for x in f.walk(h):
-            if x['k'] == 'IfStmt' and not x.get('cx'):
-                c = child(x, 'cond')
-                names = set(y.get('n') for y in f.walk(c) if y['k'] == 'DeclRefExpr')
-                if pol in names and any(is_throw(f, y) for y in f.walk(child(x, 'then'))):
-                    guarded_throw = True
-        unguarded = False
-        for x in f.walk(h):
-            if is_throw(f, x):
-                p = f.parent(x)
-                g = False
-                while p is not None and p is not h:
-                    if p['k'] == 'IfStmt' and not p.get('cx'):
-                        g = True
-                    p = f.parent(p)
-                if not g:
-                    unguarded = True
-        if not guarded_throw:
-            problems.append('handlers: catch(%s) does not throw under %s == ThrowError' % (ty, pol))
-        if unguarded:
-            problems.append('handlers: catch(%s) throws regardless of the policy (Skip cannot be honoured)' % ty)
+    problems += mapper_problems(_PROG['p'], f)[0]
     ca = hs.get(None)
     if ca is None:
         problems.append('handlers: no catch(...)')
@@ -415,3 +374,93 @@ def check_integer_conversion(prog, rep):
                 rep.finding('R4.6', '%s|%s' % (short, kind), f.loc(), 'Convert::Detail::%s: %s' % (short, msg), func=f.id)
         else:
             rep.ok('R4.6', short, sample={'conversion': short, 'cells': [(c.lo, c.hi) for c, _ in cells][:6]})
+
+
+# ---------------------------------------------------------------------------------------- handlers of the policy mappers, by execution
+def handler_throws(prog, f, h, mm, ov):
+    """the handler h of f's try statement interpreted with the two policies bound to enumerator values (parameters, or members of an options
+    object, by name); the statements of the function that precede the try run first (named flags). Returns the set {'throw', 'no throw'}."""
+    from bsv.dtab import TOP, Interp, Model, Sym
+    mmv, ovv = mm, ov
+
+    class M(Model):
+        def initial_store(self, it, key):
+            return TOP
+
+        def member_value(self, it, fr, n, base):
+            if n.get('m') == 'mismatchedTypesPolicy':
+                return mmv
+            if n.get('m') == 'overflowNumberPolicy':
+                return ovv
+            return TOP
+
+        def compare(self, it, fr, n, op, a, b):
+            return Sym(('GUARD', 'CMP@%s' % fr.f.loc(n)))
+
+        def construct(self, it, fr, n, depth):
+            for a in n.get('c', ()):
+                it.ev(fr, a, depth)
+            return TOP
+
+        def primitive(self, it, fr, n, callee, depth):
+            g = it.prog.funcs.get(callee['id']) if callee.get('repo') else None
+            if g is not None and g.body is not None and pattern_in_lib(g) and depth < it.max_depth and len(list(g.walk())) < 120 \
+                    and any(x['k'] == 'CXXThrowExpr' for x in g.walk()):
+                return NotImplemented        # small helpers that throw the library's exception
+            obj, args = it.call_args(fr, n)
+            for a in args:
+                it.ev(fr, a, depth)
+            return TOP
+    t = [n for n in f.walk() if n['k'] == 'CXXTryStmt'][0]
+    pre = []
+    for st in (f.body or {}).get('c', []):
+        if st is t or any(x is t for x in f.walk(st)):
+            break
+        if st['k'] == 'DeclStmt':
+            pre.append(st)
+    body = {'k': 'CompoundStmt', 'i': -1, 'l': h.get('l', 0), 'c': pre + [h['c'][-1]]}
+    it = Interp(prog, M(), max_depth=2, max_paths=400)
+
+    def init(it_, fr):
+        for p in f.params:
+            nm = p.get('n')
+            fr.env[p['d']] = mmv if nm == 'mismatchedTypesPolicy' else (ovv if nm == 'overflowNumberPolicy' else TOP)
+    out = set()
+    for p in it.run(f, init, body=body):
+        out.add('throw' if p.outcome[0] == 'THROW' else 'no throw')
+    return out
+
+
+def mapper_problems(prog, f):
+    """range errors follow the overflow policy, conversion failures the mismatched-types policy: each handler throws on every path under
+    ThrowError and on none under Skip, whatever the other policy says"""
+    mm_e = prog.enums.get('BitSerializer::MismatchedTypesPolicy')
+    ov_e = prog.enums.get('BitSerializer::OverflowNumberPolicy')
+    if not mm_e or not ov_e:
+        raise AnalysisBroken('anchor vanished: enum MismatchedTypesPolicy / OverflowNumberPolicy')
+    T, S = 'ThrowError', 'Skip'
+    hs = {}
+    for t in [n for n in f.walk() if n['k'] == 'CXXTryStmt'][:1]:
+        for h in children_with_role(t, 'handler'):
+            hs[h.get('ctq', h.get('ct'))] = h
+    problems = []
+    oor = hs.get('std::out_of_range')
+    if oor is None:
+        problems.append('no handler for std::out_of_range: a range error is reported through the catch-all (wrong policy / wrong error code)')
+    else:
+        for other in (T, S):
+            if handler_throws(prog, f, oor, mm_e['items'][other], ov_e['items'][T]) != {'throw'}:
+                problems.append('handlers: catch(std::out_of_range) does not throw on every path under overflowNumberPolicy == ThrowError')
+            if 'throw' in handler_throws(prog, f, oor, mm_e['items'][other], ov_e['items'][S]):
+                problems.append('handlers: catch(std::out_of_range) throws under overflowNumberPolicy == Skip (Skip cannot be honoured)')
+    mmh = hs.get('std::invalid_argument') or hs.get(None)
+    if mmh is None:
+        problems.append('no handler that maps conversion failures to the mismatched-types policy')
+    else:
+        what = 'catch(std::invalid_argument)' if hs.get('std::invalid_argument') is not None else 'the catch-all handler'
+        for other in (T, S):
+            if handler_throws(prog, f, mmh, mm_e['items'][T], ov_e['items'][other]) != {'throw'}:
+                problems.append('handlers: %s does not throw on every path under mismatchedTypesPolicy == ThrowError' % what)
+            if 'throw' in handler_throws(prog, f, mmh, mm_e['items'][S], ov_e['items'][other]):
+                problems.append('handlers: %s throws under mismatchedTypesPolicy == Skip (Skip cannot be honoured)' % what)
+    return sorted(set(problems)), hs
